@@ -51,3 +51,32 @@ def spine_last(f: "Fragment", k: int) -> "Node":
     if k <= 0:
         return f.content[len(f.content) - 1]
     return spine_last(f, k - 1).content.content[len(spine_last(f, k - 1).content.content) - 1]
+
+
+def _walk(doc, pos):
+    """native reference walk (independent of ResolvedPos.resolve): index into each ancestor, outermost first"""
+    out = []
+    node, rem = doc, pos
+    while True:
+        kids_ = node.content.content
+        off = i = 0
+        while i < len(kids_) and off + kids_[i].node_size <= rem:
+            off += kids_[i].node_size
+            i += 1
+        out.append(i)
+        if rem == off or i >= len(kids_) or kids_[i].is_text:
+            return out
+        node, rem = kids_[i], rem - off - 1
+
+
+@abstract
+def rdepth(doc: "Node", pos: int) -> int:
+    """depth of position pos in doc (name of what resolve answers; natively an independent walk)"""
+    return len(_walk(doc, pos)) - 1
+
+
+@abstract
+def ridx(doc: "Node", pos: int, k: int) -> int:
+    """index into the ancestor at depth k of position pos in doc"""
+    w = _walk(doc, pos)
+    return w[k] if 0 <= k < len(w) else -1
